@@ -173,10 +173,22 @@ func readNodes(store *storage.BadgerStore, threshold uint64, withState bool) (bo
 }
 
 type tables struct {
-	keys  []crypto.Key
-	kidx  map[crypto.Key]int
-	txs   []crypto.Hash
-	tidx  map[crypto.Hash]int
+	keys []crypto.Key
+	kidx map[crypto.Key]int
+	txs  []crypto.Hash
+	tidx map[crypto.Hash]int
+	tss  []uint64
+	sidx map[uint64]int
+}
+
+func (t *tables) ts(v uint64) string {
+	i, ok := t.sidx[v]
+	if !ok {
+		i = len(t.tss)
+		t.sidx[v] = i
+		t.tss = append(t.tss, v)
+	}
+	return fmt.Sprint(i)
 }
 
 func (t *tables) key(k crypto.Key) string {
@@ -186,7 +198,7 @@ func (t *tables) key(k crypto.Key) string {
 		t.kidx[k] = i
 		t.keys = append(t.keys, k)
 	}
-	return vh.NU(uint64(i))
+	return fmt.Sprint(i)
 }
 
 func (t *tables) tx(h crypto.Hash) string {
@@ -196,11 +208,11 @@ func (t *tables) tx(h crypto.Hash) string {
 		t.tidx[h] = i
 		t.txs = append(t.txs, h)
 	}
-	return vh.NU(uint64(i))
+	return fmt.Sprint(i)
 }
 
-const recxT = "(N*N*N*N*N)"
-const briefT = "(N*N*N)"
+const recxT = "recx"
+const briefT = "briefx"
 
 func (t *tables) recs(pan bool, rs []rec) string {
 	if pan {
@@ -208,7 +220,7 @@ func (t *tables) recs(pan bool, rs []rec) string {
 	}
 	el := make([]string, len(rs))
 	for i, r := range rs {
-		el[i] = fmt.Sprintf("(%s,%s,%s,%s,%s)", t.key(r.signer), t.key(r.payee), vh.NU(stateCode(r.state)), t.tx(r.tx), vh.NU(r.ts))
+		el[i] = fmt.Sprintf("R %s %s %d %s %s", t.key(r.signer), t.key(r.payee), stateCode(r.state), t.tx(r.tx), t.ts(r.ts))
 	}
 	return vh.Ok(vh.List(el, recxT))
 }
@@ -219,7 +231,7 @@ func (t *tables) briefs(pan bool, rs []rec) string {
 	}
 	el := make([]string, len(rs))
 	for i, r := range rs {
-		el[i] = fmt.Sprintf("(%s,%s,%s)", t.key(r.signer), vh.NU(stateCode(r.state)), vh.NU(r.ts))
+		el[i] = fmt.Sprintf("B %s %d %s", t.key(r.signer), stateCode(r.state), t.ts(r.ts))
 	}
 	return vh.Ok(vh.List(el, briefT))
 }
@@ -407,9 +419,15 @@ func (o *oracle) checkHistory(pan bool, got []rec) {
 // to be empty.  A replay runs on a store of its own.
 var theStore *storage.BadgerStore
 var theDir string
+var served int // cases served by the current store
 
 func openStore() (*storage.BadgerStore, func()) {
+	if theStore != nil && served >= 40 {
+		closeStore() // deleted keys stay as tombstones and slow every scan: start over on a new store
+	}
+	served++
 	if theStore == nil {
+		served = 1
 		dir, err := os.MkdirTemp(tmpRoot(), "c27-")
 		if err != nil {
 			panic(err)
@@ -539,24 +557,26 @@ func run(c *vh.Ctx, cs Case) {
 	store, done := openStore()
 	defer done()
 
-	t := &tables{kidx: map[crypto.Key]int{}, tidx: map[crypto.Hash]int{}}
+	t := &tables{kidx: map[crypto.Key]int{}, tidx: map[crypto.Hash]int{}, sidx: map[uint64]int{}}
 	orc := newOracle(c, cs)
 	var opTerms, obsTerms []string
 	recorded, refused, panics := 0, 0, 0
 	topo := uint64(0)
 
 	emit := func(i int, op Op, signer, payee crypto.Key, tx crypto.Hash, decision int, withRead bool) {
-		opTerms = append(opTerms, fmt.Sprintf("(%s,%s,%s,%s,%s,%s)", vh.NU(kindCode(op.Kind)), t.key(signer), t.key(payee), t.tx(tx),
-			vh.NU(op.Ts), vh.Bool(op.Genesis && op.Kind == "accept")))
+		opTerms = append(opTerms, fmt.Sprintf("O %d %s %s %s %s %s", kindCode(op.Kind), t.key(signer), t.key(payee), t.tx(tx),
+			t.ts(op.Ts), vh.Bool(op.Genesis && op.Kind == "accept")))
 		orc.admit(op, signer)
 		orc.observe(i, op, signer, payee, tx, decision)
 		lat := vh.None("(res (list " + briefT + "))")
 		if withRead {
 			pan, got := readNodes(store, max64, false)
-			lat = vh.Some(t.briefs(pan, got))
+			if decision == 0 { // a refused operation leaves the store as it was: observed by the oracle only
+				lat = vh.Some(t.briefs(pan, got))
+			}
 			orc.checkLatest(i, pan, got)
 		}
-		obsTerms = append(obsTerms, fmt.Sprintf("(%s,%s)", vh.NU(uint64(decision)), lat))
+		obsTerms = append(obsTerms, fmt.Sprintf("S %d %s", decision, lat))
 		tag := []string{"ok", "err", "panic"}[decision]
 		if !(op.Genesis && op.Kind == "accept") {
 			c.Count("op:" + op.Kind + ":" + tag)
@@ -624,19 +644,24 @@ func run(c *vh.Ctx, cs Case) {
 	var readTerms []string
 	for _, rd := range cs.Reads {
 		p, got := readNodes(store, rd.Threshold, rd.WithState)
-		readTerms = append(readTerms, fmt.Sprintf("(%s,%s,%s)", vh.NU(rd.Threshold), vh.Bool(rd.WithState), t.recs(p, got)))
+		readTerms = append(readTerms, fmt.Sprintf("Q %s %s %s", vh.NU(rd.Threshold), vh.Bool(rd.WithState), t.recs(p, got)))
 	}
 	keyTerms := make([]string, len(t.keys))
 	for i, k := range t.keys {
 		keyTerms[i] = vh.BytesAsN(k[:])
 	}
 	txTerms := make([]string, len(t.txs))
-	for i, h := range t.txs {
-		txTerms[i] = vh.BytesAsN(h[:])
+	for i := range t.txs {
+		// the model only compares transaction hashes for equality: they are
+		// renamed injectively to 1,2,.. (keys keep their real values: their order is the store's key order)
+		txTerms[i] = vh.NU(uint64(i + 1))
 	}
-	term := vh.App("CHist", vh.List(keyTerms, "N"), vh.List(txTerms, "N"),
-		vh.List(opTerms, "(N*N*N*N*N*bool)"), vh.List(obsTerms, "(N*(option (res (list "+briefT+"))))"),
-		final, vh.List(readTerms, "(N*bool*(res (list "+recxT+")))"))
+	tsTerms := make([]string, len(t.tss))
+	for i, v := range t.tss {
+		tsTerms[i] = vh.NU(v)
+	}
+	term := vh.App("CHist", vh.List(keyTerms, "N"), vh.List(txTerms, "N"), vh.List(tsTerms, "N"),
+		vh.List(opTerms, "opx"), vh.List(obsTerms, "stepobs"), final, vh.List(readTerms, "readx"))
 
 	var key strings.Builder
 	key.WriteString(cs.Mode)
@@ -956,7 +981,7 @@ func corpus() []Case {
 	cs = append(cs,
 		Case{Mode: "direct", Ops: []Op{o("accept", 1, 2, 10, 5)}},
 		Case{Mode: "direct", Ops: []Op{o("cancel", 1, 2, 10, 5), o("remove", 1, 2, 11, 6), o("pledge", 1, 2, 12, 7), o("accept", 1, 2, 13, 8)}},
-		Case{Mode: "direct", Ops: []Op{o("pledge", 1, 2, 10, 0), o("pledge", 3, 4, 11, 1)}}, // timestamp 0 poisons every later read
+		Case{Mode: "direct", Ops: []Op{o("pledge", 1, 2, 10, 0), o("pledge", 3, 4, 11, 1)}},          // timestamp 0 poisons every later read
 		Case{Mode: "direct", Ops: []Op{g(1, 2, 7), g(3, 4, 7), g(2, 9, 7), o("pledge", 5, 6, 1, 8)}}, // pledge re-using a recorded transaction hash
 		Case{Mode: "direct", Ops: []Op{g(1, 2, 7), o("pledge", 3, 4, 10, 8), g(3, 5, 9), o("accept", 3, 4, 11, 10), o("accept", 3, 5, 12, 11)}},
 		// short transaction extras carry zero keys
